@@ -57,7 +57,7 @@ def doc_pool(rng, n):
         elif k == 3:   # loop limit dependent
             d = '<svg><rect id="z" wh="2"/><loop count="%s"><rect wh="2" xy="^|h 1"/></loop></svg>' % num(2, 9)
         elif k == 4:   # var limit dependent
-            d = '<svg><var v="%s"/><text xy="0" text="$v"/></svg>' % ('x' * rng.range(3, 30))
+            d = '<svg><var v="%s"/><text xy="0" text="$v"/></svg>' % ('x' * (rng.range(3, 30) if rng.chance(0.7) else rng.choice([99, 101, 150, 600, 1024, 1025])))
         elif k == 5:   # theme / class dependent
             # pattern / arrow / shadow classes pull theme-dependent definitions in; the theme is often chosen in the document
             # itself so that the same class is rendered under different themes by one process, whatever the front-end
@@ -70,7 +70,7 @@ def doc_pool(rng, n):
         elif k == 7:
             d = '<!-- c%s --><svg><line xy1="0" xy2="%s %s"/></svg>' % (num(0, 9), num(1, 30), num(1, 30))
         elif k == 8:   # depth limit dependent
-            depth = rng.range(1, 6)
+            depth = rng.range(1, 6) if rng.chance(0.7) else rng.choice([97, 98, 99, 100, 101, 120])     # around the default depth limit
             d = '<svg>' + '<g>' * depth + '<rect wh="%s"/>' % num(1, 9) + '</g>' * depth + '</svg>'
         elif k == 9:
             d = rng.choice(['', '', '\n', 'hello %s' % num(0, 9), '<!-- only %s -->' % num(0, 9)])
